@@ -92,7 +92,7 @@ func c13GenCfg(r *Rng) c13Cfg {
 		}
 		a.Active = true
 		a.Deputy = 3
-		ml := []uint64{1, 2, 3, 10, 220}[r.Pick(3, 3, 3, 2, 1)]
+		ml := []uint64{1, 2, 3, 10, 220, 0}[r.Pick(3, 3, 3, 2, 1, 2)] // 0: Params.Validate accepts it; the swap is open only for the rest of its creation block
 		a.MinLock = ml
 		a.MaxLock = ml + []uint64{0, 2, 10, 50}[r.Intn(4)]
 		switch r.Intn(4) {
@@ -744,7 +744,12 @@ func (g *c13Gen) genRefund(w *c13World, s *c13Snap) (c13Op, bool) {
 	case 0:
 		t = g.pickSwap(s, func(x *c13Swap) bool { return x.Status == 3 })
 	case 1:
-		t = g.pickSwap(s, func(x *c13Swap) bool { return x.Status == 1 })
+		// an open swap whose expire height is already reached (span 0: open for the rest of its
+		// creation block; the begin blocker of the next block expires it) must still be refused
+		t = g.pickSwap(s, func(x *c13Swap) bool { return x.Status == 1 && x.Expire <= uint64(s.height) })
+		if t == nil || r.Chance(1, 3) {
+			t = g.pickSwap(s, func(x *c13Swap) bool { return x.Status == 1 })
+		}
 		op.Note = "refund-open"
 	case 2:
 		t = g.pickSwap(s, func(x *c13Swap) bool { return x.Status == 2 })
